@@ -1,4 +1,7 @@
 SPECIFICATION TSpec
+CONSTANTS
+  SameFs = TRUE
+  LinkBackup = FALSE
 INVARIANTS
   P_RoundTrip
   P_StopBeforeReplace
